@@ -33,8 +33,8 @@ func (c09) Classes() []sim.Class {
 	var cs []sim.Class
 	for _, e := range []string{"interpreter", "compiler"} {
 		cs = append(cs,
-			sim.Class{Name: "history", Engine: e, Quick: 400, Thorough: 20000, DeathIsViolation: true, RunTimeoutSec: 120, Batch: 25},
-			sim.Class{Name: "shared-cache", Engine: e, Quick: 150, Thorough: 8000, DeathIsViolation: true, RunTimeoutSec: 120, Batch: 25},
+			sim.Class{Name: "history", Engine: e, Quick: 700, Thorough: 20000, DeathIsViolation: true, RunTimeoutSec: 120, Batch: 25},
+			sim.Class{Name: "shared-cache", Engine: e, Quick: 350, Thorough: 8000, DeathIsViolation: true, RunTimeoutSec: 120, Batch: 25},
 			sim.Class{Name: "generations", Engine: e, Quick: 60, Thorough: 3000, DeathIsViolation: true, RunTimeoutSec: 120, Batch: 20},
 		)
 	}
@@ -478,6 +478,20 @@ func (c09) Run(t *tape.Tape, cfg sim.Config) (res sim.Result) {
 		}
 		res.Stat("probe.focus_mutable_funcref_global_set_after_import", 1)
 	}
+	if shared && len(r.forceKinds) == 0 && t.Chance(1, 5) {
+		// focus: the shared cache (and with it the engine) is closed under live instances, which then reach
+		// the engine's builtin helpers (memory.grow, ref.func through the getter)
+		r.forceKinds = []byte{'A', 'B'}
+		r.followUp = []int{0, 0, 800, 201, 1, 1, 201}
+		res.Stat("probe.focus_cache_closed_under_live_instances", 1)
+	}
+	if len(r.forceKinds) == 0 && t.Chance(1, 8) {
+		// focus: an importer of A's functions, table AND memory; A is dropped and collected; the importer
+		// grows the memory and reads it back through A's code
+		r.forceKinds = []byte{'A', 'B'}
+		r.followUp = []int{0, 0, 600, 6, 201, 201}
+		res.Stat("probe.focus_importer_of_the_memory", 1)
+	}
 	if len(r.forceKinds) == 0 && t.Chance(1, 6) {
 		// focus: a glue module copies A's function into the second owner's table; then the glue module and
 		// A are dropped, collected, something else is compiled, and the second owner calls the entry
@@ -698,6 +712,18 @@ func (r *runner) step(shared bool) {
 		k = r.followUp[0]
 		r.followUp = r.followUp[1:]
 	}
+	if k == 800 {
+		// forced: close the shared cache under live runtimes
+		if shared && r.real.cache != nil {
+			err := r.real.cache.Close(r.ctx)
+			r.closedOrDropped = true
+			r.cacheClosed = true
+			r.real.cache = nil
+			r.res.Stat("fault.close_cache", 1)
+			r.log("closeCache err=%v [focus]", err)
+		}
+		return
+	}
 	if k == 700 {
 		// forced: A stores a reference to its function in its mutable funcref global
 		if r.curA >= 0 && r.curA != r.real.pausedInst {
@@ -790,6 +816,8 @@ func (r *runner) step(shared bool) {
 			switch in := r.real.insts[j]; in.kind {
 			case 'G':
 				r.compareCall(fmt.Sprintf("call #%d G.viaglob(%d) [its definer #%d was dropped and collected]", j, x, in.definer), j, "viaglob", x)
+			case 'B':
+				r.compareCall(fmt.Sprintf("call #%d B.memchk(%d) [grows and re-reads the memory of its definer #%d, which was dropped and collected]", j, x, in.definer), j, "memchk", x)
 			case 'N':
 				r.compareCall(fmt.Sprintf("call #%d N.viamref(%d) [imports only the mutable funcref global of #%d, null when imported and set afterwards; #%d was dropped and collected]", j, x, in.definer, in.definer), j, "viamref", x)
 			case 'H':
